@@ -380,6 +380,8 @@ ENG: Engine | None = None
 # eager mode: comparisons of SymInts branch immediately and return a real bool (needed where the result
 # is handed to C code, e.g. a numpy boolean mask).  Always sound: it only splits paths earlier.
 EAGER = False
+# a harness may allow f-string formatting of a proxy where the real code only formats it into an error message
+FORMAT_PLACEHOLDER = False
 
 
 class eager:
@@ -604,6 +606,8 @@ class SymInt(int):
         raise Unsupported("str of symbolic int")
 
     def __format__(self, f):
+        if FORMAT_PLACEHOLDER:
+            return "<symbolic>"
         raise Unsupported("format of symbolic int")
 
     def __index__(self):
